@@ -179,8 +179,9 @@ class GwCheck:
             for ev in t["ev"]:
                 nev += 1
                 if self.nontrivial(ev):
-                    key = common.h([ev["a"], ev.get("l", {}).get("h"), ev["out"], ev["cb"], ev.get("exc"),
-                                    ev["st"]["trans"] if "trans" in self.proj else 0])
+                    key = common.h([ev["a"], ev.get("l", {}).get("h"), ev["out"], ev["cb"], ev.get("exc"), ev.get("json"),
+                                    ev["st"]["trans"] if "trans" in self.proj else 0,
+                                    ev["disk"] if ev.get("hasdisk") and "disk" in self.proj else 0])
                     self.rep.nontrivial(key)
         self.rep.cov["evaluations"] += nev
         for r in rej:
